@@ -269,6 +269,48 @@ def persistence(ctx):
                            (sig, sorted({l.state for l, w in zip(sites, windowed) if not w})))
 
 
+def release_and_overrides(ctx):
+    ob7 = ctx.ob("C04.7", "traffic resumes after every sequence: wherever the refresher raises cmd.last (end of the sequence) it drops cmd.valid in the "
+                          "same step - all exits agree (sibling consistency); otherwise the bank machines still see the request for one cycle, grant again, "
+                          "and the multiplexer re-enters its refresh state with nobody left to release it", 2)
+    ob8 = ctx.ob("C04.8", "the executers share the command registers under last-assignment-wins: no executer places an UNCONDITIONAL default "
+                          "assignment to cmd.a/ba/ras/cas/we after another executer's timeline (it would override that executer's commands every cycle)", 5)
+    for zq in (False, True):
+        r = elab(ctx, REFR, "Refresher", kwargs=RK).variant_map({"(settings.timing.tZQCS is None)": not zq, "(settings.timing.tZQCS isnot None)": zq})
+        fs = r.fsms("")
+        if not ob7.need(len(fs) == 1, "Refresher FSM not found"):
+            return
+        f = fs[0]
+        cmdk = key(r.top.attrs.get("cmd"))
+        lasts = [l for l in r.fsm_leaves(f) if l.kind == "assign" and key(l.target) == cmdk + ".last" and is1(l.value)]
+        if not ob7.need(len(lasts) >= (2 if zq else 1), "zqcs=%s: end-of-sequence sites not found" % zq):
+            continue
+        for l in lasts:
+            g = r.guard_keys(l, False)
+            drops = [m for m in r.fsm_leaves(f, l.state) if m.kind == "assign" and key(m.target) == cmdk + ".valid" and is0(m.value) and r.guard_keys(m, False) <= g]
+            ob7.instance("zqcs=%s state %s end of sequence" % (zq, l.state), {"guards": sorted(g), "drops_valid": bool(drops)})
+            if not drops:
+                ob7.refute("last-without-release:%s" % l.state, "state %s raises cmd.last under %s but keeps cmd.valid (= refresh_req of every bank machine) high in "
+                           "that cycle, unlike the other exits: the bank machines grant once more and the multiplexer re-enters its refresh state while the "
+                           "refresher is already idle - traffic stalls until the next refresh" % (l.state, sorted(g)), l.loc)
+        if not zq:
+            continue
+        # C04.8
+        for field in ("a", "ba", "cas", "ras", "we"):
+            tk = "%s.%s" % (cmdk, field)
+            uncond = [l for l in r.leaves if l.kind == "assign" and l.domain.startswith("sync") and key(l.target) == tk and not l.guards]
+            tls = [l for l in r.leaves if l.kind == "timeline" and any(isinstance(st, Assign) and key(st.target) == tk for t_, sts in l.stmt.events for st in sts)]
+            ob8.instance("cmd.%s writers" % field, {"unconditional": [(l.inst, l.order) for l in uncond], "timelines": [(l.inst, l.order) for l in tls]})
+            for u in uncond:
+                over = [t for t in tls if t.order < u.order and t.inst != u.inst]
+                if over:
+                    ob8.refute("default-after-timeline:%s" % field, "%s assigns cmd.%s = %s unconditionally AFTER the timeline of %s in statement order: under "
+                               "last-assignment-wins that executer's precharge-all / refresh commands never reach the command bus" %
+                               (u.inst or "Refresher", field, key(u.value), over[0].inst), u.loc)
+        if not any(True for _ in r.leaves):
+            ob8.unknown("no leaves")
+
+
 def shared(ctx):
     ob = ctx.ob("C04.6", "the tREFI handed to the controller is rounded down (shared with C16.3) and each executer starts with precharge-all "
                          "(shared with C02.1)", 2)
@@ -298,6 +340,7 @@ def run(ctx):
     timers(ctx)
     priority(ctx)
     persistence(ctx)
+    release_and_overrides(ctx)
     shared(ctx)
     ctx.assume("numeric service-latency bound and long-run rate under adversarial traffic are NOT decided (they need the time a bank machine "
                "takes to reach its idle state); tREFI >= 100 cycles is enforced by the Refresher itself")
